@@ -75,13 +75,17 @@ public:
 
     template <typename D, bool TR>
     virtual_2d_locator(virtual_2d_locator<D, TR> const &loc, coord_t y_step)
-        : y_pos_(loc.pos(), point_t(loc.step().x, loc.step().y * y_step), loc.deref_fn())
+        : y_pos_(loc.pos()
+        , TR ? // the y axis of a transposed locator runs along the x dimension of the deref function
+            point_t(loc.step().x * y_step, loc.step().y) :
+            point_t(loc.step().x, loc.step().y * y_step)
+        , loc.deref_fn())
     {}
 
     template <typename D, bool TR>
     virtual_2d_locator(virtual_2d_locator<D, TR> const& loc, coord_t x_step, coord_t y_step, bool transpose = false)
         : y_pos_(loc.pos()
-        , transpose ?
+        , (transpose != TR) ? // the new locator is transposed w.r.t. the deref function: its x axis runs along y
             point_t(loc.step().x * y_step, loc.step().y * x_step) :
             point_t(loc.step().x * x_step, loc.step().y * y_step)
         , loc.deref_fn())
